@@ -79,6 +79,9 @@ def _tms_shapes(tier):
     if not T_:  # the boundaries of the one-octet address length, one message of each kind
         for a in (127, 128, 255):
             out += [dict(kind="ack", alen=a, opt=True), dict(kind="availability", alen=a, opt=False), dict(kind="text", alen=a, mlen=6, enc=None)]
+        # long texts (the statement: texts of 0..200 UCS-2 characters = 0..400 octets), around 140 characters and at the end
+        for m in (280, 282, 400):
+            out += [dict(kind="text", alen=3, mlen=m, enc="UCS2_LE"), dict(kind="text", alen=0, mlen=m, enc=None)]
     return out
 
 
